@@ -389,7 +389,9 @@ class EngineBase:
             ob.status, ob.backend = "proved", "simplify"
             self.obligations.append(ob)
             return
-        self.obligations.append(Obligation(self._obname(kind, where), p.pc, raw, kind, where, extra))
+        ob = Obligation(self._obname(kind, where), p.pc, raw, kind, where, extra)
+        ob.trace = list(p.trace)[-40:]
+        self.obligations.append(ob)
 
     def _obname(self, kind, where):
         t = self.cur_target or "?"
